@@ -1,11 +1,11 @@
 SPECIFICATION SimSpec
 CONSTANTS
-  Nodes = {1, 2, 3, 4}
+  Nodes = {1, 2, 3, 4, 5}
   Epoch = 2
-  JoinSet = {4}
+  JoinSet = {5}
   RemainSet = {1, 2, 3}
-  LeaveSet = {}
-  Leader = 2
+  LeaveSet = {4}
+  Leader = 1
   Thr = 3
   Period = 3
   Genesis = 100
@@ -14,11 +14,12 @@ CONSTANTS
   LateSet = {}
   RankChoices <- SimRanks
   PermuteLists = TRUE
-  AtomicGossip = TRUE
+  AtomicGossip = FALSE
   AtomicExec = FALSE
-  MaxDrop = 1
-  DropKinds = {"D", "R"}
-  Depth = 150
+  MaxDrop = 0
+  DropKinds = {"D", "R", "J"}
+  Offline = {}
+  Depth = 330
   MaxDup = 4
-  ShiftRanks = TRUE
+  ShiftRanks = FALSE
 CHECK_DEADLOCK FALSE
